@@ -322,6 +322,28 @@ def _limit(dec: str) -> int:
     return 2 if dec in HUNG else WATCHDOG_S
 
 
+# the classes C10's statement lists for decoders (C10_errors_all_listed); core.DOCUMENTED also holds the classes other
+# properties document for non-decoders (OverflowError: C14, FileNotFoundError: C19, InvalidVerifParams: C15)
+C10_LISTED = {"value", "crc", "cfdp_version", "tlv_type", "uslp"}
+
+
+_LISTED_CACHE: Dict[type, Optional[frozenset]] = {}
+
+
+def _check_listed(e: BaseException, dec: str, raw: bytes):
+    """a decoder must fail with a class of C10's list; an exception that is (also) an instance of a listed class passes
+    (the verdict is a pure function of the exception's class: memoised)"""
+    k = type(e)
+    if k not in _LISTED_CACHE:
+        c = frozenset(core.exc_categories(e)) | {_category(e)}
+        _LISTED_CACHE[k] = c if (c & set(core.DOCUMENTED) and not c & C10_LISTED) else None
+    cats = _LISTED_CACHE[k]
+    if cats is not None:
+        raise SelfCheckFailure(
+            f"{type(e).__name__} ({'/'.join(sorted(cats))}) from decoder {dec} on input {raw.hex() or '(empty)'} is not one of the "
+            f"error classes documented for decoders (ValueError family, CRC, unsupported version, TLV type, Uslp*)"[:300])
+
+
 def op_c10_decode(a):
     fn = DECODE.get(a["decoder"])
     if fn is None:
@@ -340,6 +362,7 @@ def op_c10_decode(a):
         raise
     except BaseException as e:  # noqa
         SEEN[(a["decoder"], type(e).__name__)] += 1
+        _check_listed(e, a["decoder"], bytes(raw))
         raise
     SEEN[(a["decoder"], "accepted")] += 1
     return True
@@ -377,6 +400,7 @@ def op_c10_sweep(a):
                 if cat not in core.DOCUMENTED:
                     raise SelfCheckFailure(
                         f"undocumented {type(e).__name__} ({cat}) from {a['decoder']} on input {raw.hex() or '(empty)'}: {e}"[:300])
+                _check_listed(e, a["decoder"], raw)
             if ok:
                 acc += 1
             if ok == cur:
